@@ -178,7 +178,8 @@ def gen_case(rng, tier, kind=None, N=None, nc=None):
                 "conv_thr": rng.choice([None, None, 1e-9, 1e-3, 0.5])},
         "np_seed": rng.randint(0, 2 ** 31 - 1),
         # a long-lived machine object: used (enrolment) or trained before this training
-        "pre": rng.choice([None, None, None, "enroll", "fit", "fit_then_update_ubm"]),
+        "pre": rng.choice([None, None, None, "enroll", "fit", "fit_then_update_ubm",
+                           "fit_then_shallow_copy", "shallow_copy"]),
         "sched": gen_sched(rng),
         "xmodes": rng.random() < 0.5,
     }
@@ -446,7 +447,9 @@ def _pre(case, m, stats, bag_mode):
     pre = case.get("pre")
     if pre == "enroll" and case["kind"] != "ivector":
         m.enroll(stats[:2])
-    elif pre in ("fit", "fit_then_update_ubm"):
+    elif pre == "shallow_copy":
+        return _derived(case, m)
+    elif pre in ("fit", "fit_then_update_ubm", "fit_then_shallow_copy"):
         rev = stats[::-1]
         if case["kind"] == "ivector":
             m.fit(db.from_sequence(rev, npartitions=2) if bag_mode else rev)
@@ -459,13 +462,29 @@ def _pre(case, m, stats, bag_mode):
             ubm = _CTX["ubm"]
             ubm.means = np.array(ubm.means) * 1.05 + 0.01
             ubm.variances = np.array(ubm.variances) * 1.2
+        if pre == "fit_then_shallow_copy":
+            return _derived(case, m)
+    return m
+
+
+def _derived(case, t):
+    """The machine that is trained is a copy.copy of a template machine that lives on and whose
+    matrices are re-assigned afterwards."""
+    import copy as _cp
+    m = _cp.copy(t)
+    for nm in ("U", "V", "D", "T", "sigma"):
+        if isinstance(getattr(t, nm, None), np.ndarray):
+            setattr(t, nm, np.array(getattr(t, nm), float) * 2.0 + 0.5)
+    _CTX.setdefault("alive", []).append(t)
+    del _CTX["alive"][:-4]
+    return m
 
 
 def _fit_list(case):
     np.random.seed(case["np_seed"] % (2 ** 32))
     m = _make(case)
     stats = _mk_stats(case)
-    _pre(case, m, stats, False)
+    m = _pre(case, m, stats, False)
     if case["kind"] == "ivector":
         m.fit(stats)
     else:
@@ -479,7 +498,7 @@ def _fit_bag(case, carry=None):
     stats = carry.pop("stats", None) or _mk_stats(case)
     if m is None:
         m = _make(case)
-        _pre(case, m, stats, True)
+        m = _pre(case, m, stats, True)
     bag = carry.pop("bag", None)
     if bag is None:
         bag = _bag(case, stats)
